@@ -11,7 +11,7 @@ open PubModel.Sni.Teardown
 
 def wHS : HS → Nat
   | .notYet => 6 | .arriving => 5 | .dialing => 4 | .joined => 3 | .closingTunnel => 1
-  | .done => 0 | .elsewhere => 0
+  | .done => 0 | .elsewhere => 0 | .sideWait => 3
 
 def wUp : Up → Nat
   | .readFront => 3 | .writeTunnel => 2 | .closing => 1 | .exited => 0
@@ -94,6 +94,11 @@ theorem front_decreases (F : Facts) (c : Ctx) (f f' : Front) (e : FEv) (hc : c.c
   · simp [fm, wHS, hg.1]
   · have := hok f hg.2
     simp [fm, wHS, hg.1, huse, hostReturn]; omega
+  · simp [fm, wHS, hg.1, hostReturn]
+  · have := hok f hg.2
+    simp [fm, wHS, hg.1, huse]; omega
+  · simp [fm, wHS, hg]
+  · simp [fm, wHS, hg.1, hostReturn]
   · simp [fm, wHS, hg.1, hostReturn]
 
 /-- **Every step taken after the control connection is gone strictly decreases the measure.** -/
